@@ -33,21 +33,25 @@ Proof.
   - induction refs as [|x l IH]; cbn [map flat_map]; [reflexivity | now rewrite IH].
 Qed.
 
+(* a type without pending references is copied as it is, whatever the fuel *)
+Lemma link_full_resolved fuel st v t : l_refs t = [] -> l_members (link_full fuel st v t) = l_members t.
+Proof. intro H. destruct fuel; [reflexivity|]. cbn [link_full l_members]. rewrite H. cbn. apply app_nil_r. Qed.
+
 (* one linking step is right when the notation comes last and the referenced types, of the kind (SEQUENCE / SET) of the
-   including one, are already in their expanded state *)
-Theorem link_one_meets_spec f ds st n k own refs :
-  (forall r, In r refs -> exists d t,
-       find_def r ds = Some d /\ t_is_seq d = k /\ find_state r st = Some t /\
+   including one, are not being visited and are already in their expanded state *)
+Theorem link_full_meets_spec f fuel ds st v n k own refs :
+  (forall r, In r refs -> mem_str r v = false /\ exists d t,
+       find_def r ds = Some d /\ t_is_seq d = k /\ find_state r st = Some t /\ l_refs t = [] /\
        l_members t = expand f ds k (t_items d)) ->
-  l_members (link_one st (init_state (mktdef n k (map Own own ++ map ComponentsOf refs)))) =
+  l_members (link_full (S fuel) st v (init_state (mktdef n k (map Own own ++ map ComponentsOf refs)))) =
   expand (S f) ds k (map Own own ++ map ComponentsOf refs).
 Proof.
-  intro H. rewrite expand_trailing. unfold link_one, init_state. cbn [l_members l_refs t_items t_name t_is_seq].
+  intro H. rewrite expand_trailing. unfold init_state. cbn [link_full l_members l_refs t_items t_name t_is_seq].
   rewrite own_names_app, own_names_owns, own_names_refs, app_nil_r.
   rewrite refs_of_app, refs_of_owns, refs_of_refs. cbn [app]. f_equal.
   induction refs as [|r l IH]; [reflexivity|]. cbn [flat_map].
-  destruct (H r (or_introl eq_refl)) as [d [t [Hd [Hk [Ht Hm]]]]].
-  rewrite Hd, Ht, Hk, Hm, Bool.eqb_reflx. f_equal. apply IH. intros r' Hr'. apply H. now right.
+  destruct (H r (or_introl eq_refl)) as [Hv [d [t [Hd [Hk [Ht [Hr Hm]]]]]]].
+  rewrite Hv, Ht, (link_full_resolved _ _ _ _ Hr), Hd, Hk, Hm, Bool.eqb_reflx. f_equal. apply IH. intros r' Hr'. apply H. now right.
 Qed.
 
 (* the selection type picks the alternative of that name *)
@@ -81,12 +85,13 @@ Theorem components_of_appended_refuted :
   expanded_members ds nT = Some [na; ne] /\ linked_members ds nT = Some [ne; na].
 Proof. vm_compute. split; reflexivity. Qed.
 
-(* Zz { COMPONENTS OF Mm, flag }   Mm { COMPONENTS OF Aa, label }   Aa { id }: the outer type is linked first *)
+(* Zz { flag, COMPONENTS OF Mm }   Mm { label, COMPONENTS OF Aa }   Aa { id }: the outer type is linked first; until the fix of
+   C09-components-of-chain-order it copied the middle type before that was linked ([flag; label]) *)
 Definition nZ : str := [90;122]%N.  Definition nM : str := [77;109]%N.  Definition nA : str := [65;97]%N.
 Definition n_id : str := [105;100]%N.  Definition n_label : str := [108]%N.  Definition n_flag : str := [102]%N.
-Theorem components_of_chain_refuted :
+Theorem components_of_chain_linked :
   let ds := [mktdef nA true [Own n_id]; mktdef nM true [Own n_label; ComponentsOf nA]; mktdef nZ true [Own n_flag; ComponentsOf nM]] in
-  expanded_members ds nZ = Some [n_flag; n_label; n_id] /\ linked_members ds nZ = Some [n_flag; n_label].
+  expanded_members ds nZ = Some [n_flag; n_label; n_id] /\ linked_members ds nZ = Some [n_flag; n_label; n_id].
 Proof. vm_compute. split; reflexivity. Qed.
 
 (* the same chain with the names in the other order is linked completely *)
@@ -105,11 +110,7 @@ Proof. vm_compute. split; reflexivity. Qed.
 Require Import RasnV.Proofs.Driver.
 From Coq Require Import Sorting.Sorted Permutation.
 
-Definition step (st : list lstate) (x : str) : list lstate :=
-  match find_state x st with
-  | Some s => replace_state (link_one st s) st
-  | None => st
-  end.
+Definition step := link_step.
 
 Lemma link_pass_fold order st : link_pass order st = fold_left step order st.
 Proof. reflexivity. Qed.
@@ -147,7 +148,7 @@ Proof. intros <- H. exact (find_replace_same s st old H). Qed.
 
 Lemma step_other st x k : x <> k -> find_state k (step st x) = find_state k st.
 Proof.
-  intro Hne. unfold step. destruct (find_state x st) as [s|] eqn:E; [|reflexivity].
+  intro Hne. unfold step, link_step. destruct (find_state x st) as [s|] eqn:E; [|reflexivity].
   apply find_replace_other. cbn. rewrite (find_state_name _ _ _ E). exact Hne.
 Qed.
 
@@ -157,12 +158,20 @@ Proof.
   rewrite IH by (intro; apply Hk; now right). apply step_other. intro; apply Hk; now left.
 Qed.
 
-Lemma link_one_norefs st s : l_refs s = [] -> link_one st s = s.
-Proof. intro H. unfold link_one. rewrite H. cbn. rewrite app_nil_r. destruct s; cbn in *; now subst. Qed.
+Lemma link_full_norefs f st v s : l_refs s = [] -> link_full f st v s = s.
+Proof. intro H. destruct f; [reflexivity|]. cbn [link_full]. rewrite H. cbn. rewrite app_nil_r. destruct s; cbn in *; now subst. Qed.
+
+Lemma find_remove_other n st k : n <> k -> find_state k (remove_state n st) = find_state k st.
+Proof.
+  intro Hne. induction st as [|x r IH]; cbn; [reflexivity|].
+  destruct (str_eqb n (l_name x)) eqn:E.
+  - apply str_eqb_eq in E. rewrite <- E. rewrite (str_eqb_neq k n) by congruence. exact IH.
+  - cbn. destruct (str_eqb k (l_name x)); [reflexivity | exact IH].
+Qed.
 
 Lemma step_norefs st r s : find_state r st = Some s -> l_refs s = [] -> find_state r (step st r) = Some s.
 Proof.
-  intros Hf Hr. unfold step. rewrite Hf, (link_one_norefs st s Hr).
+  intros Hf Hr. unfold step, link_step. rewrite Hf, (link_full_norefs _ _ _ s Hr).
   rewrite <- (find_state_name _ _ _ Hf). now apply (find_replace_same s st s); rewrite (find_state_name _ _ _ Hf).
 Qed.
 
@@ -234,7 +243,7 @@ Proof.
                                                find_state r st1 = Some (init_state dr)).
   { intros r Hr. destruct (Hrefs r Hr) as [_ [dr [Hf [Hk Hn0]]]]. exists dr. repeat split; try assumption.
     unfold st1. apply fold_stable; [now apply find_init | exact Hn0]. }
-  unfold step. rewrite Hn1.
+  unfold step, link_step. rewrite Hn1.
   match goal with |- context [replace_state ?s st1] =>
     assert (Hnm : l_name s = n) by reflexivity;
     assert (Hsame : find_state n (replace_state s st1) = Some s)
@@ -242,11 +251,13 @@ Proof.
   end.
   rewrite Hsame. cbn [option_map]. f_equal.
   destruct ds as [|d0 ds']; [discriminate|]. cbn [length].
-  rewrite expand_trailing. unfold link_one, init_state. cbn [l_members l_refs t_items t_name t_is_seq].
+  rewrite expand_trailing. unfold init_state at 1. cbn [link_full l_members l_refs t_items t_name t_is_seq].
   rewrite own_names_app, own_names_owns, own_names_refs, app_nil_r, refs_of_app, refs_of_owns, refs_of_refs. cbn [app]. f_equal.
-  clear Hn1 Hd Hsplit Hnodup Hna Hnb Hsame Hnm. induction refs as [|r l IH]; [reflexivity|]. cbn [flat_map].
+  clear Hn1 Hd Hsplit Hnodup Hna Hnb Hsame Hnm. induction refs as [|r l IH]; [reflexivity|]. cbn [flat_map mem_str existsb].
   destruct (Hr1 r (or_introl eq_refl)) as [dr [Hf [Hk [Hn0 Hs]]]].
-  rewrite Hs, Hf, Hk, Bool.eqb_reflx. cbn [init_state l_members].
+  destruct (Hrefs r (or_introl eq_refl)) as [Hrn _].
+  rewrite (find_remove_other n st1 r) by congruence.
+  rewrite Hs, Hf, Hk, Bool.eqb_reflx. rewrite link_full_resolved by exact Hn0. cbn [init_state l_members].
   rewrite (expand_owns _ _ _ _ Hn0). f_equal. apply IH.
   - intros r' Hr'. apply Hrefs. now right.
   - intros r' Hr'. apply Hr1. now right.
